@@ -214,12 +214,16 @@ def tx_is_coinbase(self):
 
 
 # pycoin/coins/Tx.py :: Tx.check_solution
+# pycoin/coins/Tx.py :: Tx.check_solution
 def btx_check_solution(self, tx_in_idx, *args, **kwargs):
+    if len(self.unspents) <= tx_in_idx or self.unspents[tx_in_idx] is None:
+        raise ScriptError()
     sc = self.SolutionChecker(self)
     tx_context = sc.tx_context_for_idx(tx_in_idx)
     sc.check_solution(tx_context, *args, **kwargs)
 
 
+# pycoin/satoshi/checksigops.py :: checksigs
 # pycoin/satoshi/checksigops.py :: checksigs
 def cs_checksigs(vm, sig_blobs, public_pair_blobs):
     sig_blobs_remaining = list(sig_blobs)
@@ -233,9 +237,12 @@ def cs_checksigs(vm, sig_blobs, public_pair_blobs):
         try:
             sig_pair, signature_type = parse_and_check_signature_blob(sig_blob, flags, vm)
         except (der.UnexpectedDER, ValueError):
-            public_pair_blobs = []
+            sig_pair = None
         while len(sig_blobs_remaining) < len(public_pair_blobs):
             pair_blob = public_pair_blobs.pop()
+            if sig_pair is None:
+                check_public_key_flags(pair_blob, verify_witness_pubkeytype, verify_strict)
+                continue
             if checksig(vm, sig_pair, signature_type, pair_blob, sig_blobs, sighash_cache, verify_witness_pubkeytype, verify_strict):
                 break
         else:
@@ -247,13 +254,10 @@ def cs_checksigs(vm, sig_blobs, public_pair_blobs):
 
 
 # pycoin/satoshi/checksigops.py :: checksig
+# pycoin/satoshi/checksigops.py :: checksig
 def cs_checksig(vm, sig_pair, signature_type, pair_blob, blobs_to_delete, sighash_cache, verify_witness_pubkeytype, verify_strict):
     generator = vm.generator_for_signature_type(signature_type)
-    if verify_strict:
-        check_public_key_encoding(pair_blob)
-    if verify_witness_pubkeytype:
-        if pair_blob[0] not in (2, 3) or len(pair_blob) != 33:
-            raise ScriptError()
+    check_public_key_flags(pair_blob, verify_witness_pubkeytype, verify_strict)
     try:
         public_pair = sec_to_public_pair(pair_blob, generator, strict=verify_strict)
     except (ValueError, EncodingError):
